@@ -2010,7 +2010,7 @@ def translate_fs(repo, exp):
 
 
 
-AUTH_WANTED = ["BasicAuthMiddleware::verify", "BasicAuthMiddleware::process"]
+AUTH_WANTED = ["BasicAuthMiddleware::verify", "BasicAuthMiddleware::process", "LocalAuthMiddleware::process"]
 
 
 class AuthFn(Fn):
@@ -2063,6 +2063,10 @@ class AuthFn(Fn):
         n0 = strip(n)
         if n0.get("kind") == "MemberExpr" and self.member(n0) == "realm":
             return [], "ae.realm", "bytes"
+        if n0.get("kind") == "MemberExpr" and self.member(n0) == "tokenHeader":
+            return [], "ae.tokenHeader", "bytes"
+        if n0.get("kind") == "MemberExpr" and self.member(n0) == "token":
+            return [], "ae.token", "bytes"
         if n0.get("kind") == "CXXOperatorCallExpr":
             ks = kids(n0)
             opn = strip(ks[0]).get("referencedDecl", {}).get("name", "")
@@ -2146,7 +2150,8 @@ class AuthFn(Fn):
 def translate_auth(repo, exp):
     QSTR_AS_BYTES[0] = True
     try:
-        docs = clang_ast(repo, "basicauthmiddleware.cpp", "QHttpEngine::BasicAuthMiddleware", exp)
+        docs = clang_ast(repo, "basicauthmiddleware.cpp", "QHttpEngine::BasicAuthMiddleware", exp) + \
+            clang_ast(repo, "localauthmiddleware.cpp", "QHttpEngine::LocalAuthMiddleware", exp)
         decls = {}
         by_id = {}
         def index(n, cls=None):
@@ -2166,7 +2171,7 @@ def translate_auth(repo, exp):
         sdocs = clang_ast(repo, "basicauthmiddleware.cpp", "QHttpEngine::Socket", exp)
         senums = enum_values(sdocs, "Socket")
         ctx = Ctx(decls, senums, "")
-        ctx.fetch = lambda name: clang_ast(repo, "basicauthmiddleware.cpp", name, exp)
+        ctx.fetch = lambda name: clang_ast(repo, "basicauthmiddleware.cpp", name, exp) + clang_ast(repo, "localauthmiddleware.cpp", name, exp)
         ctx.fn_class = AuthFn
         done, failed = [], []
         for key in AUTH_WANTED:
@@ -2174,7 +2179,7 @@ def translate_auth(repo, exp):
                 ctx.need(key)
             except Untranslatable as e:
                 failed.append("%s (%s)" % (key, e))
-        out = ["-- GENERATED on every run by tools/cxx2lean_qt.py from src/src/basicauthmiddleware.cpp — do not edit.",
+        out = ["-- GENERATED on every run by tools/cxx2lean_qt.py from src/src/basicauthmiddleware.cpp and localauthmiddleware.cpp — do not edit.",
                "import Qhttp.Model.AxPrim", "set_option linter.unusedVariables false", "", "namespace QhttpGen.Auth", "open Qhttp", ""]
         for key in ctx.order:
             out.append(ctx.code[key]); done.append(key)
